@@ -255,7 +255,10 @@ class RuleGen:
         rng, f = self.rng, self.feat
         if ops == ("",):
             if rng.random() < f.excess_ops:
-                return ["@any" if rng.random() < f.any * 2 else self.decoy_operand()]
+                r4 = rng.random()
+                if r4 < 0.3 and self.allow_def:
+                    return [self.new_cap("x")]
+                return ["@any" if r4 < 0.3 + f.any * 2 else self.decoy_operand()]
             return None
         n = rng.randint(1, len(ops))
         # $and_any_order over two operands
@@ -291,7 +294,15 @@ class RuleGen:
             out = out[rng.randint(1, len(out) - 1):]     # near miss: names that only occur in a LATER operand than written
         if out and len(out) == len(ops) and rng.random() < f.excess_ops:
             for _ in range(rng.randint(1, 2)):
-                out.append("@any" if rng.random() < f.any * 2 else self.decoy_operand())
+                r4 = rng.random()
+                if r4 < f.any * 2:
+                    out.append("@any")
+                elif r4 < f.any * 2 + 0.3 and self.allow_def:
+                    out.append(self.new_cap("x"))          # a capture definition beyond the last operand must not match anything
+                elif r4 < f.any * 2 + 0.4:
+                    out.append({"$not": [self.decoy_operand()]})
+                else:
+                    out.append(self.decoy_operand())
         return out or None
 
     # ---------------------------------------------------------------- instruction nodes
